@@ -65,7 +65,10 @@ type c19Repo struct {
 	User    string   `json:"user,omitempty"`
 	Pass    string   `json:"pass,omitempty"`
 	PassAll bool     `json:"pass_all,omitempty"`
-	URLs    []string `json:"urls"` // urls of chart "a" 1.0.0 in this repository's index
+	// insecure_skip_tls_verify of the entry: no part of the property, but it travels next to the
+	// pass-credentials flag through findChartURL / the getter options (must not be mixed up with it)
+	Insecure bool     `json:"insecure,omitempty"`
+	URLs     []string `json:"urls"` // urls of chart "a" 1.0.0 in this repository's index
 }
 
 type c19Case struct {
@@ -629,7 +632,7 @@ func c19Gen(r *rand.Rand, kind string) c19Case {
 		tag := fmt.Sprintf("r%d", k)
 		u, pw := c19Creds(r, tag)
 		_, ref := c19ChartRef(r, s, h, p)
-		c.Repos = append(c.Repos, c19Repo{Name: tag, URL: s + "://" + h + p, User: u, Pass: pw, PassAll: r.Intn(5) == 0, URLs: []string{ref}})
+		c.Repos = append(c.Repos, c19Repo{Name: tag, URL: s + "://" + h + p, User: u, Pass: pw, PassAll: r.Intn(5) == 0, Insecure: r.Intn(4) == 0, URLs: []string{ref}})
 	}
 	// sometimes another repository lists the very same absolute URL (scanReposForURL picks the first)
 	if len(c.Repos) > 1 && r.Intn(3) == 0 {
@@ -712,7 +715,7 @@ func c19Gen(r *rand.Rand, kind string) c19Case {
 			_, s2, h2 := c19Variant(r, tu.Scheme, tu.Host)
 			abs := s2 + "://" + h2 + "/charts/a-1.0.0.tgz"
 			priv := c19Repo{Name: "private", URL: target.URL, User: "user-private", Pass: fmt.Sprintf("pw-private-%d", r.Intn(1000)),
-				PassAll: r.Intn(6) == 0, URLs: []string{abs}}
+				PassAll: r.Intn(6) == 0, Insecure: r.Intn(2) == 0, URLs: []string{abs}}
 			pub := c19Repo{Name: "public", URL: s2 + "://" + h2 + "/charts", URLs: []string{abs}}
 			if downloader.VerifURLEqual(pub.URL, priv.URL) {
 				// findChartURL ranges over a Go map: two entries with Equal URLs would make the
@@ -915,6 +918,11 @@ func (*c19) Corpus() []any {
 			{Name: "public", URL: "https://public.example/charts", URLs: []string{"https://public.example/charts/a-1.0.0.tgz"}},
 			{Name: "private", URL: "https://private.corp.test/charts", User: "user-private", Pass: "pw-private", URLs: []string{"https://public.example/charts/a-1.0.0.tgz"}}},
 			Note: "manager-build-foreign-owner"},
+		// the same with insecure_skip_tls_verify on the private entry (the flag next to pass-credentials)
+		c19Case{Kind: "manager", DepRepo: "https://private.corp.test/charts", SkipUpdate: true, Repos: []c19Repo{
+			{Name: "public", URL: "https://public.example/charts", URLs: []string{"https://public.example/charts/a-1.0.0.tgz"}},
+			{Name: "private", URL: "https://private.corp.test/charts", User: "user-private", Pass: "pw-private", Insecure: true, URLs: []string{"https://public.example/charts/a-1.0.0.tgz"}}},
+			Note: "manager-foreign-owner-insecure"},
 		// the same with an owner that differs from the private repository in the scheme only
 		c19Case{Kind: "manager", DepRepo: "https://private.corp.test/charts", SkipUpdate: true, Repos: []c19Repo{
 			{Name: "plain", URL: "http://private.corp.test/charts", URLs: []string{"http://private.corp.test/charts/a-1.0.0.tgz"}},
@@ -1040,7 +1048,7 @@ func (p *c19) Execute(ci any) (res any) {
 	os.MkdirAll(cache, 0o755)
 	rf := repo.NewFile()
 	for _, rp := range c.Repos {
-		rf.Add(&repo.Entry{Name: rp.Name, URL: rp.URL, Username: rp.User, Password: rp.Pass, PassCredentialsAll: rp.PassAll})
+		rf.Add(&repo.Entry{Name: rp.Name, URL: rp.URL, Username: rp.User, Password: rp.Pass, PassCredentialsAll: rp.PassAll, InsecureSkipTLSverify: rp.Insecure})
 		os.WriteFile(filepath.Join(cache, helmpath.CacheIndexFile(rp.Name)), c19IndexYAML(rp.URLs), 0o644)
 	}
 	rcfg := filepath.Join(work, "repositories.yaml")
@@ -1072,7 +1080,7 @@ func (p *c19) Execute(ci any) (res any) {
 		case "index":
 			rp := c.Repos[0]
 			var cr *repo.ChartRepository
-			cr, err = repo.NewChartRepository(&repo.Entry{Name: rp.Name, URL: rp.URL, Username: rp.User, Password: rp.Pass, PassCredentialsAll: rp.PassAll}, getter.All(settings))
+			cr, err = repo.NewChartRepository(&repo.Entry{Name: rp.Name, URL: rp.URL, Username: rp.User, Password: rp.Pass, PassCredentialsAll: rp.PassAll, InsecureSkipTLSverify: rp.Insecure}, getter.All(settings))
 			if err == nil {
 				cr.CachePath = cache
 				_, err = cr.DownloadIndexFile()
